@@ -62,12 +62,23 @@ JudgeCtor(e) ==
     ELSE IF DeclValid(e.decl) /\ e.out # "ok" THEN "Ctor:valid-declaration-refused"
     ELSE "ok"
 
-(* Encrypt: usedIV = IVs of the encryptions seen before in this trace, usedCt = their ciphertexts   *)
+(* Encrypt, Layer A - exactly what the property states: length contracts are enforced, a valid call returns bytes, *)
+(* the ciphertext length depends only on the message length, and no ciphertext is ever produced twice (usedCt = the *)
+(* ciphertexts of the encryptions seen before in this trace, which repeat (k, m) pairs on purpose).                *)
 JudgeEnc(e, usedIV, usedCt) ==
     IF EncContractBroken(e.decl, e.k, e.m)
     THEN (IF e.out = "ValueError" THEN "ok" ELSE "Contract:encrypt-accepted-wrong-length")
     ELSE IF e.out # "ok" THEN "Encrypt:refused-valid-input"
     ELSE IF ~IsBytes(e.ct) THEN "Encrypt:result-not-bytes"
+    ELSE IF Len(e.ct) # CtLen(Len(e.m)) THEN "Encrypt:length-formula"
+    ELSE IF e.ct \in usedCt THEN "Encrypt:ciphertext-repeated"
+    ELSE "ok"
+
+(* Encrypt, Layer B (drift only) - the construction the code of the unchanged tree uses: one AES-CBC core call under *)
+(* k on Pad(m) with an IV that is a fresh 16-byte draw from os.urandom, ct = iv . body.  An implementation that gets *)
+(* its randomness or its cipher elsewhere may satisfy the property without satisfying this.                          *)
+StructEnc(e, usedIV) ==
+    IF EncContractBroken(e.decl, e.k, e.m) \/ e.out # "ok" \/ ~IsBytes(e.ct) THEN "ok"
     ELSE LET S0 == {i \in CoreIdx(e) : e.core[i].dir = "enc" /\ e.core[i].alg = "AES" /\ e.core[i].mode = "CBC"
                                         /\ e.core[i].fin}
              S1 == {i \in S0 : e.core[i].k = e.k}
@@ -76,15 +87,13 @@ JudgeEnc(e, usedIV, usedCt) ==
              S4 == {i \in S3 : Len(e.core[i].iv) = Block /\ e.core[i].iv \in RngOutputs(e)}
              S5 == {i \in S4 : e.core[i].iv \notin usedIV}
              S6 == {i \in S5 : e.ct = EncryptWith(LAMBDA k, iv, x : e.core[i].res, e.k, e.m, e.core[i].iv)}
-         IN  IF S0 = {} THEN "Encrypt:no-AES-CBC-core-call"
-             ELSE IF S1 = {} THEN "Encrypt:core-key-differs"
-             ELSE IF S2 = {} THEN "Encrypt:core-input-not-Pad(m)"
-             ELSE IF S3 = {} THEN "Encrypt:core-result-shape"
-             ELSE IF S4 = {} THEN "Encrypt:iv-not-a-16-byte-random-draw"
-             ELSE IF S5 = {} THEN "Encrypt:iv-reused"
-             ELSE IF S6 = {} THEN "Encrypt:ct-not-iv+body"
-             ELSE IF Len(e.ct) # CtLen(Len(e.m)) THEN "Encrypt:length-formula"
-             ELSE IF e.ct \in usedCt THEN "Encrypt:ciphertext-repeated"
+         IN  IF S0 = {} THEN "B:Encrypt:no-AES-CBC-core-call"
+             ELSE IF S1 = {} THEN "B:Encrypt:core-key-differs"
+             ELSE IF S2 = {} THEN "B:Encrypt:core-input-not-Pad(m)"
+             ELSE IF S3 = {} THEN "B:Encrypt:core-result-shape"
+             ELSE IF S4 = {} THEN "B:Encrypt:iv-not-a-16-byte-random-draw"
+             ELSE IF S5 = {} THEN "B:Encrypt:iv-reused"
+             ELSE IF S6 = {} THEN "B:Encrypt:ct-not-iv+body"
              ELSE "ok"
 
 (* the IV of an accepted encryption (first 16 bytes of the ciphertext, by the framing clause) *)
@@ -102,7 +111,7 @@ JudgeDec(e, encs) ==
     ELSE "ok"
 
 (* a whole run's IVs are pairwise distinct *)
-JudgeIvSet(e) == IF Cardinality({e.ivs[i] : i \in 1..Len(e.ivs)}) = Len(e.ivs) THEN "ok" ELSE "Encrypt:iv-reused-across-run"
+JudgeIvSet(e) == IF Cardinality({e.ivs[i] : i \in 1..Len(e.ivs)}) = Len(e.ivs) THEN "ok" ELSE "B:Encrypt:iv-reused-across-run"
 
 (* ---- Layer B: what the code of the unchanged tree does beyond the property (drift only) --------- *)
 DriftCtor(e) ==
